@@ -17,7 +17,7 @@ SHARDS = {'quick': 16, 'thorough': 32}
 TIMEOUT = {'quick': 900, 'thorough': 3600}
 MUST_HIT = ['Cell.where_eq-identifier-twin', 'Cell.two-classes', 'Cell.read-all-spellings', 'Cell.serialize', 'Cell.where_eq',
             'Referential.write-rejected', 'Referential.ctor-keyword', 'Referential.loaded-instance', 'ClassName.spellings',
-            'Cell.referred-identifier-written']
+            'Cell.referred-identifier-written', 'ClassName.whole-model-after-spellings']
 MUST_REACH = ['xtuml/meta.py:Class.__getattr__', 'xtuml/meta.py:Class.__setattr__',
               'xtuml/meta.py:Class.__delattr__', 'xtuml/meta.py:MetaModel.find_metaclass',
               'xtuml/meta.py:MetaClass.new', 'xtuml/meta.py:WhereEqual.__call__',
@@ -321,6 +321,29 @@ def class_name_checks(ctx, route):
                 raise Mismatch('class/redefinition-accepted', 'define_class(%r) accepted a second Thng' % sp)
             except xtuml.MetaModelException:
                 pass
+            # whatever spelling addressed the class so far, the model as a whole still holds this one class with
+            # these two instances: iterated, serialized and read back
+            ctx.hit('ClassName.whole-model-after-spellings')
+            n_cls = len(sch.classes)
+            if len(set(id(x) for x in m.metaclasses.values())) != n_cls or len(m.metaclasses) != n_cls:
+                raise Mismatch('class/registry', 'after addressing Thng as %r the metamodel lists %d classes (%r), '
+                               'declared %d' % (sp, len(m.metaclasses), sorted(m.metaclasses), n_cls))
+            if len(list(m.instances)) != 2:
+                raise Mismatch('class/instances-iterated', 'after addressing Thng as %r the metamodel iterates %d '
+                               'instances, created 2' % (sp, len(list(m.instances))))
+            text = xtuml.serialize(m)
+            if text.count('INSERT INTO') != 2 or text.count('CREATE TABLE') != n_cls:
+                raise Mismatch('class/serialized', 'after addressing Thng as %r the model serializes %d instances and '
+                               '%d classes (created 2, declared %d)' % (sp, text.count('INSERT INTO'),
+                                                                        text.count('CREATE TABLE'), n_cls))
+            try:
+                m2 = reload(m)
+            except Exception as e:
+                raise Mismatch('class/serialized', 'after addressing Thng as %r the serialized model does not load: '
+                               '%s: %s' % (sp, type(e).__name__, e))
+            if sorted(x.Nm for x in m2.select_many('Thng')) != ['a', 'b']:
+                raise Mismatch('class/serialized', 'after addressing Thng as %r the model reads back %r'
+                               % (sp, [x.Nm for x in m2.select_many('Thng')]))
         ctx.case_enum(True)
 
 
